@@ -14,7 +14,13 @@ A *case* is the literal input of one call of the real code
   P             number of channels
   noise_kind    'none' | 'matrix' | 'list';  noise: matrix / list of matrices (integers), the
                 list aligned with the *sorted* distinct fold labels (the API's convention)
-  remove_mean, prior_lambda, prior_weight, extra (add a second obs descriptor)
+  noise_container  how a per-fold precision list is handed over: 'list' | 'dict' (keys 0..M-1) |
+                'array3d';  noise_kind 'scalar' / 'badshape' = malformed precision (rejected)
+  descriptor    False = the call passes descriptor=None (rejected)
+  parts         list input: `calc_rdm([ds_1, ds_2, …], …)`; every part is a complete case of its
+                own dataset (same conditions), `dslist_noise` 'none' | 'matrix' | 'per_dataset'
+  remove_mean, prior_lambda, prior_weight, extra (a second obs descriptor and a vector-valued
+                dataset descriptor)
   view          None or a re-presentation of the same data under which the property says the
                 result is invariant: {'rows': permutation, 'fold_map': [[old, new] …] | None,
                 'chan': permutation | None}; the real code is run on the case *and* on the
@@ -39,20 +45,26 @@ THEOREMS = [_P + n for n in (
     'crossnobis_identity_precision',
     'crossnobis_foldprec_eq',
     'poissoncv_eq_pair_average',
+    'poissoncv_lastfold_closed',
     'no_within_fold_product',
     'cv_obs_perm',
     'cv_obs_perm_estimators',
     'cv_fold_relabel',
     'cv_fold_relabel_estimators',
     'cv_channel_perm',
+    'cv_channel_perm_foldprec',
     'cv_labels_from_descriptor',
     'defaultCv_balanced',
     'defaultCv_dataset_balanced',
     'defaultCv_rejects_unbalanced',
+    'leaf_entry_formula',
+    'leaf_fold_average',
+    'leaf_prior_regularisation',
 )]
 RULE = ('cases come from one PRNG: fold-balanced designs with 2-5 conditions x 2-5 folds x 1-3 '
         'repetitions x 1-5 channels (plus a many-fold stream with 11-12 folds and a malformed '
-        'stream with unequal counts under the default fold descriptor), rows shuffled, condition '
+        'stream: unequal counts under the default fold descriptor, descriptor=None, precision of wrong '
+        'type or shape; a list-of-datasets stream through calc_rdm), rows shuffled, condition '
         'and fold labels int / str / float, explicit or default fold descriptor, precision none / '
         'one matrix (SPD or non-symmetric) / one SPD per fold, remove_mean, crossnobis (exact '
         'rationals) or poisson_cv (doubles), called through calc_rdm or directly; every case is also '
@@ -62,7 +74,10 @@ RULE = ('cases come from one PRNG: fold-balanced designs with 2-5 conditions x 2
 BRANCHES = ['crossnobis:noise_none', 'crossnobis:noise_matrix', 'crossnobis:noise_list',
             'poisson_cv', 'cv:default', 'cv:explicit', 'remove_mean', 'labels:int', 'labels:str',
             'labels:rat', 'foldlabels:str', 'reject:unbalanced_default', 'via:calc_rdm', 'via:direct',
-            'reps>1', 'folds>=11', 'view:rows', 'view:fold_map', 'view:chan', 'nonsym_precision']
+            'reps>1', 'folds>=11', 'view:rows', 'view:fold_map', 'view:chan', 'nonsym_precision',
+            'reject:no_descriptor', 'reject:noise_type', 'reject:noise_shape',
+            'noise_container:dict', 'noise_container:array3d',
+            'input:dataset_list', 'dslist:noise_none', 'dslist:noise_matrix', 'dslist:noise_per_dataset']
 ASSUMPTIONS = [
     'float64 evaluation (numpy on the implementation side, Lean Float / exact Rat on the model side) '
     'agrees within rtol 1e-9 / atol 1e-9 on the small dyadic inputs used',
@@ -159,7 +174,8 @@ def make_case(rng, n_cond=None, n_fold=None, n_rep=None, n_chan=None, method=Non
     case = {'method': method, 'via': rng.choice(['calc_rdm', 'direct']), 'ckind': ckind, 'fkind': fkind,
             'cond': cond, 'fold': None if default_cv else fold, 'x': x, 'P': P,
             'noise_kind': 'none', 'noise': None, 'remove_mean': False,
-            'prior_lambda': 1.0, 'prior_weight': 0.1, 'extra': rng.random() < 0.3, 'view': None}
+            'prior_lambda': 1.0, 'prior_weight': 0.1, 'extra': rng.random() < 0.3, 'view': None,
+            'descriptor': True, 'noise_container': 'list'}
     if method == 'crossnobis':
         nk = noise_kind or rng.choice(['none', 'matrix', 'matrix', 'list', 'list'])
         case['noise_kind'] = nk
@@ -167,6 +183,7 @@ def make_case(rng, n_cond=None, n_fold=None, n_rep=None, n_chan=None, method=Non
             case['noise'] = _nonsym(rng, P) if rng.random() < 0.3 else _spd(rng, P)
         elif nk == 'list':
             case['noise'] = [_spd(rng, P) for _ in range(M)]
+            case['noise_container'] = rng.choice(['list', 'list', 'dict', 'array3d'])
         case['remove_mean'] = rng.random() < 0.4
     else:
         case['prior_lambda'] = rng.choice([1.0, 0.5, 2.0, 1.0])
@@ -177,14 +194,77 @@ def make_case(rng, n_cond=None, n_fold=None, n_rep=None, n_chan=None, method=Non
     return case
 
 
+def make_malformed(rng, kind=None):
+    """arguments the code refuses before looking at the data"""
+    kind = kind or rng.choice(['no_descriptor', 'noise_type', 'noise_shape'])
+    c = make_case(rng, method=None if kind == 'no_descriptor' else 'crossnobis', default_cv=False)
+    c['view'] = None
+    if kind == 'no_descriptor':
+        c['descriptor'] = False
+    elif kind == 'noise_type':
+        c['noise_kind'], c['noise'] = 'scalar', 3
+    else:
+        bad = _spd(rng, c['P'] + 1)
+        if c['noise_kind'] == 'list':
+            c['noise'] = list(c['noise'])
+            c['noise'][rng.randrange(len(c['noise']))] = bad
+        else:
+            c['noise_kind'], c['noise'] = 'matrix', bad
+    return c
+
+
+def make_dslist(rng, noise=None):
+    """calc_rdm on a list of datasets: one RDM per dataset, same conditions"""
+    method = 'crossnobis' if noise else rng.choice(['crossnobis', 'crossnobis', 'poisson_cv'])
+    C, P = rng.randint(2, 4), rng.randint(1, 3)
+    ckind = rng.choice(['int', 'str', 'rat'])
+    default_cv = rng.random() < 0.3
+    conds = _labels(rng, ckind, C)
+    n = rng.randint(2, 3)
+    parts = []
+    for _ in range(n):
+        p = make_case(rng, n_cond=C, n_chan=P, method=method, default_cv=default_cv, ckind=ckind,
+                      noise_kind='none')
+        # same condition labels in every dataset
+        old = sorted(set(p['cond']))
+        ren = dict(zip(map(json.dumps, old), rng.sample(conds, C)))
+        p['cond'] = [ren[json.dumps(c)] for c in p['cond']]
+        p['view'], p['extra'], p['via'] = None, False, 'calc_rdm'
+        parts.append(p)
+    top = dict(parts[0])
+    top['parts'] = parts
+    top['dslist_noise'] = 'none'
+    for k in ('remove_mean', 'prior_lambda', 'prior_weight'):
+        for p in parts:
+            p[k] = top[k]
+    if method == 'crossnobis':
+        top['dslist_noise'] = noise or rng.choice(['none', 'matrix', 'per_dataset'])
+        if top['dslist_noise'] == 'matrix':
+            N = _spd(rng, P)
+            for p in parts:
+                p['noise_kind'], p['noise'] = 'matrix', N
+        elif top['dslist_noise'] == 'per_dataset':
+            for p in parts:
+                p['noise_kind'], p['noise'] = 'matrix', _spd(rng, P)
+    return top
+
+
 def generate(rng, tier):
-    n = 260 if tier == 'quick' else 9000
+    n = 252 if tier == 'quick' else 9000
     # a few fixed-shape cases first so that every branch is reached whatever the seed
     yield make_case(rng, method='poisson_cv', default_cv=False)
     yield make_case(rng, method='poisson_cv', default_cv=True)
     for nk in ('none', 'matrix', 'list'):
         yield make_case(rng, method='crossnobis', noise_kind=nk, default_cv=False, n_rep=2)
         yield make_case(rng, method='crossnobis', noise_kind=nk, default_cv=True)
+    for kind in ('no_descriptor', 'noise_type', 'noise_shape'):
+        yield make_malformed(rng, kind)
+    for nz in ('none', 'matrix', 'per_dataset'):
+        yield make_dslist(rng, nz)
+    for cont in ('dict', 'array3d'):
+        c = make_case(rng, method='crossnobis', noise_kind='list', default_cv=False)
+        c['noise_container'] = cont
+        yield c
     for i in range(n):
         u = rng.random()
         if u < 0.06:
@@ -195,6 +275,10 @@ def generate(rng, tier):
                             noise_kind=rng.choice(['none', 'matrix']))
         elif u < 0.12:
             yield make_case(rng, default_cv=True, unbalanced=True)
+        elif u < 0.17:
+            yield make_malformed(rng)
+        elif u < 0.25:
+            yield make_dslist(rng)
         else:
             yield make_case(rng)
 
@@ -258,28 +342,41 @@ def _call(case):
         obs['fold'] = list(case['fold'])
     if case['extra']:
         obs['family'] = ['g' + str(_plain(c)) for c in case['cond']]
-    ds = Dataset(X, descriptors={'subj': 's1'}, obs_descriptors=obs)
+    dsc = {'subj': 's1'}
+    if case['extra']:
+        dsc['params'] = [1.5, 2.5, 3.5]        # vector-valued dataset descriptor
+    ds = Dataset(X, descriptors=dsc, obs_descriptors=obs)
     cv = 'fold' if case['fold'] is not None else None
     noise = None
-    if case['noise_kind'] == 'matrix':
+    if case['noise_kind'] in ('matrix', 'badshape'):
         noise = np.array(case['noise'], dtype=float)
+    elif case['noise_kind'] == 'scalar':
+        noise = float(case['noise'])
     elif case['noise_kind'] == 'list':
         noise = [np.array(m, dtype=float) for m in case['noise']]
+        cont = case.get('noise_container', 'list')
+        if cont == 'dict':
+            noise = dict(enumerate(noise))
+        elif cont == 'array3d' and len({m.shape for m in noise}) == 1:
+            noise = np.array(noise)
+    if case.get('parts'):
+        return _call_list(case)
+    dname = 'cond' if case.get('descriptor', True) else None
     try:
         if case['method'] == 'crossnobis':
             if case['via'] == 'calc_rdm':
-                r = rcalc.calc_rdm(ds, method='crossnobis', descriptor='cond', noise=noise,
+                r = rcalc.calc_rdm(ds, method='crossnobis', descriptor=dname, noise=noise,
                                    cv_descriptor=cv, remove_mean=case['remove_mean'])
             else:
-                r = rcalc.calc_rdm_crossnobis(ds, 'cond', noise=noise, cv_descriptor=cv,
+                r = rcalc.calc_rdm_crossnobis(ds, dname, noise=noise, cv_descriptor=cv,
                                               remove_mean=case['remove_mean'])
         else:
             if case['via'] == 'calc_rdm':
-                r = rcalc.calc_rdm(ds, method='poisson_cv', descriptor='cond', cv_descriptor=cv,
+                r = rcalc.calc_rdm(ds, method='poisson_cv', descriptor=dname, cv_descriptor=cv,
                                    prior_lambda=case['prior_lambda'], prior_weight=case['prior_weight'],
                                    remove_mean=case['remove_mean'])
             else:
-                r = rcalc.calc_rdm_poisson_cv(ds, 'cond', prior_lambda=case['prior_lambda'],
+                r = rcalc.calc_rdm_poisson_cv(ds, dname, prior_lambda=case['prior_lambda'],
                                               prior_weight=case['prior_weight'], cv_descriptor=cv)
     except (ValueError, TypeError, AssertionError, IndexError, KeyError, np.linalg.LinAlgError) as exc:
         name = type(exc).__name__
@@ -292,6 +389,40 @@ def _call(case):
     if len(pairs) != len(vec):
         return {'exc': 'malformed', 'n_labels': len(labels), 'n_values': len(vec)}
     return {'pairs': [[a, b, v] for (a, b), v in zip(pairs, vec)]}
+
+
+def _call_list(case):
+    """calc_rdm([ds_1, …]): one canonical result per RDM of the returned stack"""
+    from rsatoolbox.data import Dataset
+    from rsatoolbox.rdm import calc as rcalc
+    dss = []
+    for p in case['parts']:
+        X = np.array([[float(unrat(v)) for v in row] for row in p['x']], dtype=float)
+        obs = {'cond': list(p['cond'])}
+        if p['fold'] is not None:
+            obs['fold'] = list(p['fold'])
+        dss.append(Dataset(X, descriptors={'subj': 's1'}, obs_descriptors=obs))
+    cv = 'fold' if case['fold'] is not None else None
+    noise = None
+    if case['dslist_noise'] == 'matrix':
+        noise = np.array(case['parts'][0]['noise'], dtype=float)
+    elif case['dslist_noise'] == 'per_dataset':
+        noise = [np.array(p['noise'], dtype=float) for p in case['parts']]
+    try:
+        r = rcalc.calc_rdm(dss, method=case['method'], descriptor='cond', noise=noise, cv_descriptor=cv,
+                           prior_lambda=case['prior_lambda'], prior_weight=case['prior_weight'],
+                           remove_mean=case['remove_mean'])
+    except (ValueError, TypeError, AssertionError, IndexError, KeyError, np.linalg.LinAlgError) as exc:
+        name = type(exc).__name__
+        return {'exc': name if name in ('ValueError', 'TypeError', 'AssertionError') else 'other'}
+    if r.dissimilarities.shape[0] != len(dss) or 'cond' not in r.pattern_descriptors:
+        return {'exc': 'malformed', 'shape': list(r.dissimilarities.shape)}
+    labels = [_plain(v) for v in r.pattern_descriptors['cond']]
+    pairs = list(itertools.combinations(labels, 2))
+    if len(pairs) != r.dissimilarities.shape[1]:
+        return {'exc': 'malformed', 'n_labels': len(labels), 'n_values': int(r.dissimilarities.shape[1])}
+    return {'rdms': [{'pairs': [[a, b, float(v)] for (a, b), v in zip(pairs, row)]}
+                     for row in r.dissimilarities]}
 
 
 def run_impl(case):
@@ -321,12 +452,13 @@ def _dec_label(kind, v):
 
 def _request(case, what):
     r = {'ckind': case['ckind'], 'fkind': case['fkind'], 'P': case['P'], 'what': what,
+         'descriptor': bool(case.get('descriptor', True)),
          'cond': [_enc_label(case['ckind'], c) for c in case['cond']],
          'fold': None if case['fold'] is None else [_enc_label(case['fkind'], f) for f in case['fold']]}
     if case['method'] == 'crossnobis':
         r['op'] = 'c02.crossnobis'
         r['x'] = case['x']
-        r['noise_kind'] = case['noise_kind']
+        r['noise_kind'] = 'matrix' if case['noise_kind'] == 'badshape' else case['noise_kind']
         r['noise'] = case['noise']
         r['remove_mean'] = case['remove_mean']
     else:
@@ -338,12 +470,15 @@ def _request(case, what):
 
 
 def model_requests(case):
+    if case.get('parts'):
+        return [_request(p, w) for p in case['parts'] for w in ('algo', 'spec')]
     return [_request(case, 'algo'), _request(case, 'spec')]
 
 
 def _dec_answer(case, ans):
     if isinstance(ans, dict) and 'reject' in ans:
-        return {'exc': 'AssertionError'}
+        return {'exc': {'unbalanced': 'AssertionError', 'noise_shape': 'AssertionError',
+                        'noise_type': 'ValueError', 'no_descriptor': 'ValueError'}.get(ans['reject'], 'other')}
     if not isinstance(ans, dict) or 'pairs' not in ans:
         return {'model_error': ans}
     num = (lambda v: float(unrat(v))) if case['method'] == 'crossnobis' else unfbits
@@ -352,6 +487,9 @@ def _dec_answer(case, ans):
 
 
 def model_result(case, answers):
+    if case.get('parts'):
+        return {'parts': [{'algo': _dec_answer(p, answers[2 * k]), 'spec': _dec_answer(p, answers[2 * k + 1])}
+                          for k, p in enumerate(case['parts'])]}
     return {'algo': _dec_answer(case, answers[0]), 'spec': _dec_answer(case, answers[1])}
 
 
@@ -370,6 +508,16 @@ def _diff(tag, got, want):
 
 
 def compare(case, impl, model):
+    if case.get('parts'):
+        got = impl['main']
+        if 'exc' in got:
+            return f'impl (dataset list): {got}'
+        for k, (g, m) in enumerate(zip(got['rdms'], model['parts'])):
+            d = _diff(f'model algo vs model spec (dataset {k})', m['algo'], m['spec']) \
+                or _diff(f'impl RDM {k} of the dataset list', g, m['algo'])
+            if d:
+                return d
+        return None
     # model-internal: algorithm as coded = statement (what the theorems prove)
     if 'exc' not in model['algo']:
         d = _diff('model algo vs model spec', model['algo'], model['spec'])
@@ -414,7 +562,8 @@ def features(case, impl):
     n_cond, n_fold, reps, balanced = _design(case)
     br = []
     if case['method'] == 'crossnobis':
-        br.append('crossnobis:noise_' + case['noise_kind'])
+        if case['noise_kind'] in ('none', 'matrix', 'list'):
+            br.append('crossnobis:noise_' + case['noise_kind'])
         if case['noise_kind'] == 'matrix' and \
                 any(case['noise'][i][j] != case['noise'][j][i]
                     for i in range(case['P']) for j in range(case['P'])):
@@ -434,6 +583,19 @@ def features(case, impl):
         br.append('reps>1')
     if n_fold >= 11:
         br.append('folds>=11')
+    if not case.get('descriptor', True):
+        br.append('reject:no_descriptor')
+    if case['noise_kind'] == 'scalar':
+        br.append('reject:noise_type')
+    if case['noise_kind'] in ('matrix', 'list') and case['noise'] is not None:
+        ms = [case['noise']] if case['noise_kind'] == 'matrix' else case['noise']
+        if any(len(m) != case['P'] for m in ms):
+            br.append('reject:noise_shape')
+    if case['noise_kind'] == 'list' and case.get('noise_container', 'list') != 'list':
+        br.append('noise_container:' + case['noise_container'])
+    if case.get('parts'):
+        br.append('input:dataset_list')
+        br.append('dslist:noise_' + case['dslist_noise'])
     v = case.get('view') or {}
     if v.get('rows') and v['rows'] != sorted(v['rows']):
         br.append('view:rows')
@@ -442,6 +604,8 @@ def features(case, impl):
     if v.get('chan'):
         br.append('view:chan')
     return {'method': case['method'], 'via': case['via'], 'ckind': case['ckind'],
+            'malformed_args': (not case.get('descriptor', True)) or any(b.startswith('reject:noise') for b in br),
+            'dataset_list': bool(case.get('parts')),
             'fkind': case['fkind'] if case['fold'] is not None else 'default',
             'noise_kind': case['noise_kind'], 'default_cv': case['fold'] is None,
             'n_cond': n_cond, 'n_fold': n_fold, 'reps': reps, 'n_channel': case['P'],
@@ -449,6 +613,11 @@ def features(case, impl):
 
 
 def nontrivial_key(case, impl):
+    if impl is not None and case.get('parts') and 'rdms' in impl.get('main', {}):
+        if all(abs(p[2]) < 1e-12 for r in impl['main']['rdms'] for p in r['pairs']):
+            return None
+        return [case['method'], [[p['cond'], p['fold'], p['x'], p['noise']] for p in case['parts']],
+                case['remove_mean']]
     if impl is None or 'pairs' not in impl.get('main', {}):
         return None
     if all(abs(p[2]) < 1e-12 for p in impl['main']['pairs']):
@@ -597,7 +766,36 @@ def _check_against(defn, got, tag):
     return None
 
 
+def _outside(case):
+    """malformed arguments: the property's quantifier does not include them"""
+    if not case.get('descriptor', True) or case['noise_kind'] in ('scalar', 'badshape'):
+        return True
+    if case['noise_kind'] in ('matrix', 'list') and case['noise'] is not None:
+        ms = [case['noise']] if case['noise_kind'] == 'matrix' else case['noise']
+        if any(len(m) != case['P'] or any(len(r) != case['P'] for r in m) for m in ms):
+            return True
+    return False
+
+
 def oracle(case):
+    if case.get('parts'):
+        if any(_outside(p) for p in case['parts']):
+            return None
+        defs = [definition(p) for p in case['parts']]
+        if any(d is None for d in defs):
+            return None
+        got = run_impl(case)['main']
+        if 'exc' in got:
+            return {'what': 'calc_rdm on a list of fold-balanced datasets raised', 'observed': got,
+                    'expected': 'one RDM per dataset', 'features': {'signature': 'other'}}
+        for k, (d, g) in enumerate(zip(defs, got['rdms'])):
+            bad = _check_against(d, g, f"{case['method']} RDM {k} of a dataset list")
+            if bad:
+                bad['features'] = {'signature': 'other'}
+                return bad
+        return None
+    if _outside(case):
+        return None
     defn = definition(case)
     if defn is None:
         return None                      # outside the quantifier of the property
@@ -643,6 +841,17 @@ def _drop_rows(case, keep):
 
 
 def _candidates(case):
+    if case.get('parts'):
+        if len(case['parts']) > 2:
+            for k in range(len(case['parts'])):
+                c = dict(case)
+                c['parts'] = [p for j, p in enumerate(case['parts']) if j != k]
+                if k == 0:
+                    top = dict(c['parts'][0])
+                    top.update({'parts': c['parts'], 'dslist_noise': case['dslist_noise']})
+                    c = top
+                yield c
+        return
     if case.get('view'):
         c = dict(case)
         c['view'] = None
